@@ -211,6 +211,13 @@ def check_coefficient_scales(z):
         got = np.asarray(z.phaseFromZernikes(list(base * s), N), float)
         if got.shape != ref.shape or not np.allclose(got / s, ref, rtol=0, atol=1e-10 * np.abs(ref).max()):
             return [("phaseFromZernikes:linear-combination:coefficient-magnitude", dict(scale=s, err=float(np.abs(got / s - ref).max()) if got.shape == ref.shape else None))]
+    # long coefficient vectors (hundreds of modes)
+    for nm in (101, 230, 301):
+        cl = np.sin(1.0 + np.arange(nm)) + 0.25
+        gotl = np.asarray(z.phaseFromZernikes(list(cl), 8), float)
+        wantl = np.tensordot(cl, np.asarray(z.zernikeArray(nm, 8), float), axes=1)
+        if gotl.shape != wantl.shape or not np.allclose(gotl, wantl, rtol=0, atol=1e-9 * np.abs(wantl).max()):
+            return [("phaseFromZernikes:linear-combination:long-coefficient-vector", dict(n_coefficients=nm, err=float(np.abs(gotl - wantl).max())))]
     mixed = np.array([1.0, 2e-9, -3e-10, 0.5, 4e-12, 0.0, 1e-9])
     big = np.where(np.abs(mixed) > 1e-3, mixed, 0.0)
     got = np.asarray(z.phaseFromZernikes(list(mixed), N), float) - np.asarray(z.phaseFromZernikes(list(big), N), float)
